@@ -5,7 +5,7 @@ From V Require Import UDial.Model UDial.Proofs.   (* C02's model of the dial: sp
 From V Require Import Gen.Params Lib.Hex Wire.Varint USpec.Model USpec.Proofs USpec.ProofsShuffle
   USpec.ProofsWire USpec.ProofsFp USpec.ProofsDial.   (* [dial] below is USpec.Model.dial *)
 From V Require UFrames.Model UFrames.Proofs UPacker.Model UPacker.ProofsRandom USpec.ProofsBuilder.
-From V Require USpec.RunDial USpec.RunFp USpec.ProofsFpCase USpec.ProofsFrameBytes.
+From V Require USpec.RunDial USpec.RunFp USpec.ProofsFpCase USpec.ProofsFrameBytes USpec.HistoryModel USpec.History USpec.ProofsBuiltin.
 Import ListNotations.
 Open Scope Z_scope.
 
@@ -110,9 +110,13 @@ Theorem C11_wire_list_content : forall sup rnd js scid ps,
 Proof. exact wire_list_content. Qed.
 Print Assumptions C11_wire_list_content.
 
-(** fresh per dial: the bytes of a dial depend on the caller's settings at that point, that
-    dial's own draws and its own source connection ID -- not on any other dial of the history *)
-Theorem C11_dial_k_independent : forall st opsA scid oA opsA' stA viewsA opsB oB opsB' stB viewsB,
+(** The bytes of a dial depend on the caller's settings at that point, that dial's own draws and
+    its own source connection ID -- not on any other dial of the history.  BY CONSTRUCTION of the
+    model (audit P2): [UDial.Model.dial] returns the state it was given, which is the repaired
+    dialClientHelloSpec's per-dial copy; that the CODE behaves so is what unit uspecdial ties
+    (monitors spec-untouched / fresh-order, seeds D1, D5), and that the draws of different dials
+    are independent is an input of the model (each dial has its own oracle), not a result. *)
+Theorem C11_dial_k_independent_by_construction : forall st opsA scid oA opsA' stA viewsA opsB oB opsB' stB viewsB,
   wf_spec st -> zlen scid <= maxVarInt8 ->
   run st (opsA ++ ODial scid oA :: opsA') = Some (stA, viewsA) ->
   run st (opsB ++ ODial scid oB :: opsB') = Some (stB, viewsB) ->
@@ -123,16 +127,78 @@ Theorem C11_dial_k_independent : forall st opsA scid oA opsA' stA viewsA opsB oB
     nth_error viewsB (count_dials opsB) = Some (scid, wB) /\
     wExt wA = wExt wB.
 Proof. exact dial_k_independent. Qed.
-Print Assumptions C11_dial_k_independent.
+Print Assumptions C11_dial_k_independent_by_construction.
 
-(** ... and every order of the kept list is available to every dial, whatever came before *)
-Theorem C11_dial_k_any_order : forall st ops1 scid target,
-  wf_spec st -> sRnd (edits st ops1) = true ->
-  Permutation (suppress (sSup (edits st ops1)) (sParams st)) target ->
+(** ... and every order of the kept list is available to a randomised dial.  (About [wire_list];
+    it reaches the k-th dial of a history through C11_dial_k_wire / C11_hdial_k_wire.  Audit P7: the
+    former statement carried two unused hypotheses.) *)
+Theorem C11_wire_list_any_order : forall sup scid ps target,
+  Permutation (suppress sup ps) target ->
   exists js, admissible (length target - 1) js /\
-             wire_list (sSup (edits st ops1)) true js scid (sParams st) = map idval (map (fill scid) target).
-Proof. exact dial_k_any_order. Qed.
-Print Assumptions C11_dial_k_any_order.
+             wire_list sup true js scid ps = map idval (map (fill scid) target).
+Proof. exact wire_list_any_order. Qed.
+Print Assumptions C11_wire_list_any_order.
+
+(** Round 8 (audit P3).  Histories that also contain calls of QUICSpec.TransportParamIDs()
+    ([HistoryModel.hop]: dial / set suppression list / set randomize flag / IDs()).  Since the
+    repair fixes/C11-transport-parameter-ids-on-a-copy.patch the method computes on a copy, so
+    for the dials a history with IDs() calls is the same history without them ... *)
+Theorem C11_hrun_erase : forall ops st,
+  match HistoryModel.hrun st ops, run st (HistoryModel.erase_ids ops) with
+  | Some (st1, outs), Some (st2, views) => st1 = st2 /\ HistoryModel.wires_of outs = views
+  | None, None => True
+  | _, _ => False
+  end.
+Proof. exact History.hrun_erase. Qed.
+Print Assumptions C11_hrun_erase.
+
+(** ... C11_dial_k_wire holds for every dial of every such history ... *)
+Theorem C11_hdial_k_wire : forall st ops1 scid o ops2 st' outs,
+  wf_spec st -> zlen scid <= maxVarInt8 ->
+  HistoryModel.hrun st (ops1 ++ HistoryModel.HDial scid o :: ops2) = Some (st', outs) ->
+  let cur := History.hedits st ops1 in
+  exists w,
+    nth_error (HistoryModel.wires_of outs) (count_dials (HistoryModel.erase_ids ops1)) = Some (scid, w) /\
+    parse (wExt w) = Some (wire_list (sSup cur) (sRnd cur) (oJs o) scid (sParams st)) /\
+    (if sRnd cur
+     then Permutation (suppress (sSup cur) (sParams st)) (dial_list (sSup cur) (sRnd cur) (oJs o) (sParams st))
+     else dial_list (sSup cur) (sRnd cur) (oJs o) (sParams st) = suppress (sSup cur) (sParams st)).
+Proof. exact History.hdial_k_wire. Qed.
+Print Assumptions C11_hdial_k_wire.
+
+(** ... and every IDs() call returns the canonical ids of the spec AS WRITTEN under the
+    suppression list in force at that point (by C11_ids_canonical: of what a dial at that point
+    sends), whatever calls and dials came before, and the spec keeps its list. *)
+Theorem C11_hist_ids : forall ops1 st ops2 st' outs,
+  HistoryModel.hrun st (ops1 ++ HistoryModel.HIds :: ops2) = Some (st', outs) ->
+  nth_error (History.ids_outs outs) (History.count_ids ops1) =
+    Some (fst (tp_ids (sSup (History.hedits st ops1)) (sParams st))) /\ sParams st' = sParams st.
+Proof. exact History.hrun_ids_prefix. Qed.
+Print Assumptions C11_hist_ids.
+
+(** Before the repair (model [hrun_legacy]: the method suppressed on the spec's own list) the
+    history  suppress [4]; IDs(); suppress []; dial  sent [1; 9] although the spec as written
+    has parameter 4 and nothing is suppressed: C11_dial_k_wire REFUTED for that code.  The
+    repaired model sends [4; 1; 9].  (Replayed on the code by unit uspecdial, monitor
+    uspecdial/ids-mutates-spec.) *)
+Theorem C11_ids_legacy_refuted :
+  option_map (fun r => History.wire_ids (snd r)) (HistoryModel.hrun_legacy History.p3_spec History.p3_history) = Some [Some [1; 9]] /\
+  option_map (fun r => History.wire_ids (snd r)) (HistoryModel.hrun History.p3_spec History.p3_history) = Some [Some [4; 1; 9]] /\
+  wire_list [] false [] [] (sParams History.p3_spec) = [(4, [5]); (1, [7]); (9, [3])].
+Proof. exact History.p3_legacy_refuted. Qed.
+Print Assumptions C11_ids_legacy_refuted.
+
+(** Audit P4: WHICH value lands in the placeholder ([filled] above leaves it open).  When the
+    spec has no typed initial_source_connection_id with an explicit value, the list a dial hands
+    to uTLS is the dial list with every typed EMPTY placeholder replaced by the connection's
+    source connection ID; a raw parameter with id 0x0f is left alone (seed C11-c). *)
+Theorem C11_wire_values : forall sup rnd js scid ps v ps' ov,
+  Forall no_explicit ps ->
+  dial sup rnd js scid ps = Some (v, ps', ov) ->
+  ps' = map (fill_typed scid) (dial_list sup rnd js ps) /\
+  vInitialSourceConnectionID v = scid /\ ov = marshal ps'.
+Proof. exact wire_values. Qed.
+Print Assumptions C11_wire_values.
 
 (** the reader inverts the marshaller on every encodable list *)
 Theorem C11_parse_marshal : forall ps, Forall wfp ps -> parse (marshal ps) = Some (map idval ps).
@@ -254,7 +320,11 @@ Print Assumptions C11_fp_frame_types_from_builder.
     from C10_header_fields (pn = c_first, length = peekPnLen of the spec's list); the frame-type
     list from C11_builder_frame_types.  [version] is the negotiated QUIC version (not a spec
     field; constant per dial). *)
-Theorem C11_fp_features_deterministic : forall version c p helloLen plens pn pnLen h fs lf pk dl ix rp ws wss,
+(* Audit P5: version, DCID/SCID length and the token flag on the right-hand side are the model's
+   own configuration inputs (their derivation from the spec is C10's C10_cid_lengths / C10_token);
+   the components with content are the packet-number bytes (C10_header_fields) and the frame
+   set (C11_builder_frame_types); [slice_ok] inside [built_by] stays a hypothesis.  Hence _partial. *)
+Theorem C11_fp_features_deterministic_partial : forall version c p helloLen plens pn pnLen h fs lf pk dl ix rp ws wss,
   ProofsBuilder.builder_ok p ->
   nth_error (UPacker.Model.flight c helloLen plens) 0 = Some (UPacker.Model.DG pn pnLen h fs lf pk dl ix rp) ->
   Forall (ProofsBuilder.built_by p) (ws :: wss) ->
@@ -263,7 +333,7 @@ Theorem C11_fp_features_deterministic : forall version c p helloLen plens pn pnL
           ProofsBuilder.pn_bytes (UPacker.Model.pnLenOf c 0) (UPacker.Model.c_first c),
           dedup (isort (ProofsBuilder.builder_types p)), 0 <? UPacker.Model.c_tokLen c).
 Proof. exact ProofsBuilder.fp_features_deterministic. Qed.
-Print Assumptions C11_fp_features_deterministic.
+Print Assumptions C11_fp_features_deterministic_partial.
 
 (** Round 7.  The simulated dials of unit simfingerprint are replayed by the model
     (USpec/RunFp.v).  The simulation does not seed math/rand, so a randomised dial is accepted
@@ -281,10 +351,14 @@ Proof. exact ProofsFpCase.fp_case_any_draws. Qed.
 Print Assumptions C11_fp_case_any_draws.
 
 (** dialClientHelloSpec's per-dial copies: in every history the k-th dial's key_share entries
-    are the spec's -- groups in order; a GREASE entry and a key the caller supplied with their
-    own bytes; a generated key elsewhere -- its server name is the spec's (or the dial's
+    are the spec's -- groups in order (in the model; on the wire a GREASE group is re-drawn by uTLS
+    per connection, the replay compares groups under [norm16]); a GREASE entry and a key the
+    caller supplied with their own bytes; nothing is stated about generated keys (audit P6: with
+    an empty oracle [gen_keys] even returns the share unkeyed; C02_dial_k_fresh_keys covers the
+    all-generated case) -- its server name is the spec's (or the dial's
     tls.Config name when the spec leaves it empty), and the spec value keeps its key shares,
     server name and parameter list whatever the dials did. *)
+(* the three "spec keeps ..." conjuncts are by construction of the model, see C11_dial_k_independent_by_construction *)
 Theorem C11_dial_k_keys : forall st ops1 scid o ops2 st' views,
   run st (ops1 ++ ODial scid o :: ops2) = Some (st', views) ->
   exists w, nth_error views (count_dials ops1) = Some (scid, w) /\
@@ -334,6 +408,30 @@ Theorem C11_builder_bytes_types : forall p data base bs us ws bs' us',
             forall t, In t l <-> In t (ProofsBuilder.builder_types p).
 Proof. exact ProofsFrameBytes.builder_bytes_types. Qed.
 Print Assumptions C11_builder_bytes_types.
+
+(** Round 8 (audit P1): clause (e), transport-parameter part, for the built-in QUICIDs.  The
+    hash input ignores everything that differs between two dials of one QUICID: *)
+Theorem C11_qtp_features_ignores : forall w1 w2,
+  map RunFp.fp_proj w1 = map RunFp.fp_proj w2 -> qtp_features w1 = qtp_features w2.
+Proof. exact ProofsBuiltin.qtp_features_ignores. Qed.
+Print Assumptions C11_qtp_features_ignores.
+
+(** ([fp_proj]: id with GREASE folded to 27, value kept only for the eleven hashed ids -- so the
+    value of initial_source_connection_id, GREASE ids and values, ChromeRandomInitialRTT, the
+    GREASE version are invisible.)  For QUICID number q of the generated table
+    [uspec_builtin_tp] (the 7 built-in lists, projected and sorted; duplicate-freeness of their
+    ids is checked here, by computation): every wire list that [builtin_check] accepts -- and
+    every simulated dial of a fresh built-in spec is a case checked by it -- has the table's
+    feature tuple, hence any two dials the same. *)
+Theorem C11_builtin_qtp_features : forall q w,
+  RunFp.builtin_check q w = true -> qtp_features w = qtp_features (RunFp.builtin_tp q).
+Proof. exact ProofsBuiltin.builtin_qtp_features. Qed.
+Print Assumptions C11_builtin_qtp_features.
+
+Theorem C11_builtin_same_on_every_dial : forall q w1 w2,
+  RunFp.builtin_check q w1 = true -> RunFp.builtin_check q w2 = true -> qtp_features w1 = qtp_features w2.
+Proof. exact ProofsBuiltin.builtin_same_on_every_dial. Qed.
+Print Assumptions C11_builtin_same_on_every_dial.
 
 (** Non-vacuity. *)
 Example C11_ex_suppress :
@@ -445,3 +543,26 @@ Example C11_ex_frame_bytes : (* PADDING runs merge, an empty PADDING frame is in
   ProofsBuilder.wtypes ws = [0; 6; 1; 0].
 Proof. repeat split. Qed.
 Print Assumptions C11_ex_frame_bytes.
+
+Example C11_ex_builtin : (* two Chrome_115 wires: different GREASE draw, order and SCID value; not permutations
+                            of each other (the premise of C11_fp_invariant fails) yet both accepted *)
+  let w1 := [(1, [128; 0; 117; 48]); (3, [69; 192]); (4, [128; 240; 0; 0]); (5, [128; 96; 0; 0]); (6, [128; 96; 0; 0]);
+             (7, [128; 96; 0; 0]); (8, [64; 100]); (9, [64; 103]); (15, []); (58, [1; 2]); (32, [128; 1; 0; 0]);
+             (12584, [82; 86; 67; 77]); (18258, [0; 0; 0; 1]); (16741339, [0; 0; 0; 1])] in
+  let w2 := [(16741339, [0; 0; 0; 1; 10; 10; 10; 10]); (89, []); (15, [7; 7; 7]); (9, [64; 103]); (8, [64; 100]);
+             (7, [128; 96; 0; 0]); (6, [128; 96; 0; 0]); (5, [128; 96; 0; 0]); (4, [128; 240; 0; 0]); (3, [69; 192]);
+             (1, [128; 0; 117; 48]); (32, [128; 1; 0; 0]); (12584, [82; 86; 67; 77]); (18258, [0; 0; 0; 1])] in
+  RunFp.builtin_check 0 w1 = true /\ RunFp.builtin_check 0 w2 = true /\ w1 <> w2 /\ RunFp.perm_eqb w1 w2 = false.
+Proof. exact ProofsBuiltin.builtin_example. Qed.
+Print Assumptions C11_ex_builtin.
+
+Example C11_ex_wire_values : (* typed empty placeholder filled, raw 0x0f parameters left alone *)
+  let ps := [P 15 [] false; P 15 [] true; P 15 [9; 9] false; P 4 [1] true] in
+  Forall no_explicit ps /\
+  exists v ov, dial [] false [] [1; 2] ps = Some (v, [P 15 [] false; P 15 [1; 2] true; P 15 [9; 9] false; P 4 [1] true], ov).
+Proof.
+  split.
+  - repeat (apply Forall_cons; [unfold no_explicit, tpid_initialSourceConnectionID; cbn; intros H1 H2; try discriminate H1; try discriminate H2; reflexivity|]). apply Forall_nil.
+  - do 2 eexists. vm_compute. reflexivity.
+Qed.
+Print Assumptions C11_ex_wire_values.
